@@ -408,6 +408,8 @@ def contains_expr(eng, c, x):
         return or_([eq_expr(eng, x, y) for y in c.keys])
     if isinstance(c, DictView):
         return contains_expr(eng, VList(c.materialize()), x)
+    if isinstance(c, ObjDictView):
+        return x in c.obj.fields if isinstance(x, str) else False
     if kind(c) == "str":
         if kind(x) != "str":
             raise _exc(eng, "TypeError", "in <string> requires string")
